@@ -106,8 +106,9 @@ def showOpt (o : Option Int) : String := match o with | some v => toString v | n
 def readAll (a : Md) : String :=
   "[" ++ ",".intercalate ((allTuples (extOf a.map)).map fun t => showOpt (a.get? (arr t))) ++ "]"
 
+/-- the history `a(t₀) = 100; a(t₁) = 101; …` over all index tuples in row-major order (`Md.writes`, cf. `md_history`) -/
 def writeAll (a : Md) : Md :=
-  ((allTuples (extOf a.map)).foldl (fun (st : Md × Nat) t => (st.1.set (arr t) (100 + st.2), st.2 + 1)) (a, 0)).1
+  a.writes ((allTuples (extOf a.map)).zipIdx.map fun tk => (tk.1, (100 + tk.2 : Int)))
 
 def iotaInt (n : Nat) (f : Nat → Int) : List Int := (List.range n).map f
 
@@ -218,12 +219,20 @@ def parsePad (s : String) : Option Nat :=
 def takesContainer : List String :=
   ["cont", "contmv", "copy", "conv", "contmve", "contal", "contmval", "mapcontal", "mapcontmval", "copyal", "swap"]
 
+/-- constructor forms instantiated for an array whose layout policy is strided (the harness' `PadLayout`, a policy over
+    `layout_stride::mapping`): the forms that take a mapping, and the constructors from a view -/
+def strideCtors : List String :=
+  ["map", "mapval", "contmv", "copy", "mapcontal", "mapcontmval", "copyal", "allocval", "span", "spanal", "spanil", "spanilal"]
+
 def handleMdarrayPad (ws : List String) (pad : Nat) : String :=
   match ws with
-  | it :: pat :: lay :: ctor :: acc :: exts :: [] =>
-    match parseMapping [it, pat, lay, ctor, exts] (fun _ => "afull") with
+  | it :: pat :: lay :: ctor :: acc :: exts :: strs =>
+    match parseMapping ([it, pat, lay, ctor, exts] ++ strs) (fun _ => "afull") with
     | some (p, l, _, _, m) =>
-      if l == .stride || !validAcc acc p.length || !isFull ws then "bad-op" else
+      if !validAcc acc p.length || !isFull ws then "bad-op" else
+      -- a strided array: only the mapping-taking forms, and only stride vectors that make the mapping unique
+      if l == .stride && (!strideCtors.contains ctor ||
+          !(((allTuples (extOf m)).map fun t => m.offset (arr t)).Nodup)) then "bad-op" else
       let arrForm := ctor == "arrext" || ctor == "arrval" || ctor == "arrcont"
       if pad != 0 && !(takesContainer.contains ctor || (arrForm && pad == 2)) then "bad-op" else
       let rss := m.requiredSpan
@@ -248,9 +257,11 @@ def handleMdarrayPad (ws : List String) (pad : Nat) : String :=
         | "default" =>
           if rankDynamic p = 0 || toList m.rank m.ext != (Extents.dflt p).toList then none
           else some (Md.new (mkMapping l (Extents.dflt p) []) 0)
-        | "span" | "spanal" => some (Md.fromMdspan m ⟨m, iotaInt rss fun k => 3 * (k : Int) + 1⟩)
+        | "span" => some (Md.fromMdspan m ⟨m, iotaInt rss fun k => 3 * (k : Int) + 1⟩)
+        | "spanal" => some (Md.fromViewAlloc m (Md.toView ⟨m, iotaInt rss fun k => 3 * (k : Int) + 1⟩))
         | "strided" => some (Md.fromMdspan m ⟨m.toStride, iotaInt rss fun k => 3 * (k : Int) + 1⟩)
-        | "spanil" | "spanilal" => some (Md.fromView m (il m))
+        | "spanil" => some (Md.fromView m (il m))
+        | "spanilal" => some (Md.fromViewAlloc m (il m))
         | "stridedil" => some (Md.fromView m (il m.toStride))
         | _ => none
       match init with
@@ -267,9 +278,15 @@ def handleMdarrayPad (ws : List String) (pad : Nat) : String :=
 def handleMdarray (ws : List String) : String :=
   match ws with
   | [it, pat, lay, ctor, acc, exts] => handleMdarrayPad [it, pat, lay, ctor, acc, exts] 0
-  | [it, pat, lay, ctor, acc, exts, padTok] =>
-    match parsePad padTok with
+  | [it, pat, lay, ctor, acc, exts, x] =>
+    if lay == "stride" then handleMdarrayPad [it, pat, lay, ctor, acc, exts, x] 0 else
+    match parsePad x with
     | some k => handleMdarrayPad [it, pat, lay, ctor, acc, exts] k
+    | none => "bad-op"
+  | [it, pat, lay, ctor, acc, exts, strs, padTok] =>
+    if lay != "stride" then "bad-op" else
+    match parsePad padTok with
+    | some k => handleMdarrayPad [it, pat, lay, ctor, acc, exts, strs] k
     | none => "bad-op"
   | _ => "bad-op"
 
